@@ -5,8 +5,8 @@ from ..interp_prop import InterpProp
 
 class C06(InterpProp):
     id = 'C06'
-    quick_cases = 200
-    thorough_cases = 5000
+    quick_cases = 1000
+    thorough_cases = 30000
     n_ops = 50
     rule = ('random well-formed charts rich in shallow and deep history states at several depths (inside orthogonal '
             'regions, nested, initial: pointing at a history) with many transitions into them × histories that exit and '
